@@ -5,7 +5,7 @@ import subprocess
 import tempfile
 import time
 import z3
-from .values import ground_axioms
+from .values import ground_axioms, abstract_recs
 
 Z3_OLD = '/usr/bin/z3'
 Z3_NEW = 'z3-new'
@@ -16,7 +16,7 @@ def to_smt2(assertions):
     s = z3.Solver()
     s.add(*assertions)
     txt = s.to_smt2()
-    txt = re.sub(r'\(\(_ ([A-Za-z_][\w!.:]*) 0\)', r'(\1', txt)     # z3 prints rec-fun applications as ((_ f 0) ..)
+    txt = re.sub(r'\(\(_ ([A-Za-z_][\w!.:\-]*) 0\)', r'(\1', txt)     # z3 prints rec-fun applications as ((_ f 0) ..)
     return '(set-logic ALL)\n' + txt
 
 
@@ -35,37 +35,63 @@ def run_cli(cmd, text, timeout):
         os.unlink(path)
 
 
-def check(hyps, goal, timeout_ms=10000, want_model=True, second=False):
-    """-> dict(result='unsat'|'sat'|'unknown', model, seconds, backend, second=...)"""
+def check(hyps, goal, timeout_ms=10000, want_model=True, second=False, first_ms=300):
+    """-> dict(result='unsat'|'sat'|'unknown', model, seconds, backend, second=...)
+    portfolio: z3 5.1.0 in process (short budget) -> z3 4.8.12 / cvc5 1.0.3 on the exported text -> z3 5.1.0 full budget.
+    Models are only taken from the in-process solver."""
     q = [z3.simplify(x) for x in list(hyps) + [z3.Not(goal)]]
     q = q + ground_axioms(q)
-    s = z3.Solver()
-    s.set('timeout', timeout_ms)
-    s.add(*q)
-    t = time.time()
-    r = s.check()
-    dt = time.time() - t
-    res = dict(result=str(r), model=(s.model() if r == z3.sat else None), seconds=dt, backend=f"z3py-{z3.get_version_string()}", size=sum(len(x.sexpr()) for x in q[:50]))
+    t0 = time.time()
+
+    def inproc(ms):
+        s = z3.Solver()
+        s.set('timeout', ms)
+        s.add(*q)
+        r = s.check()
+        return r, (s.model() if r == z3.sat else None)
+    size = sum(len(x.sexpr()) for x in q[:50])
+    # stage 0: recursive definitions replaced by uninterpreted twins (plus the instantiated lemmas): unsat here is unsat there
+    s0 = z3.Solver()
+    s0.set('timeout', min(1000, timeout_ms))
+    s0.add(*abstract_recs(q))
+    if s0.check() == z3.unsat and not second:
+        return dict(result='unsat', model=None, backend=f"z3py-{z3.get_version_string()} (recursive definitions abstracted)", size=size, seconds=time.time() - t0)
+    r, model = inproc(min(first_ms, timeout_ms))
+    res = dict(result=str(r), model=model, backend=f"z3py-{z3.get_version_string()}", size=size)
     if r == z3.unknown or second:
         text = None
         try:
             text = to_smt2(q)
         except Exception as e:      # export problems never decide anything
             res['export_error'] = str(e)[:200]
+        sec = {}
         if text is not None:
-            sec = {}
             for name, cmd in (('z3-4.8.12', [Z3_OLD, f'-T:{max(1, timeout_ms // 1000)}']),
                               ('cvc5-1.0.3', [CVC5, '--strings-exp', f'--tlimit={timeout_ms}'])):
                 rr, d2 = run_cli(cmd, text, timeout_ms / 1000)
                 sec[name] = (rr, round(d2, 3))
                 if r == z3.unknown and rr == 'unsat':
-                    res.update(result='unsat', backend=name, seconds=dt + d2)
+                    res.update(result='unsat', backend=name)
                     r = z3.unsat
                     if not second:
                         break
             res['second'] = sec
-            if res['result'] == 'unsat' and any(v[0] == 'sat' for v in sec.values()):
-                res['disagreement'] = True
-            if res['result'] == 'sat' and any(v[0] == 'unsat' for v in sec.values()):
-                res['disagreement'] = True
+        if r == z3.unknown:
+            r, model = inproc(timeout_ms)
+            res.update(result=str(r), model=model, backend=f"z3py-{z3.get_version_string()}")
+        if res['result'] == 'unsat' and any(v[0] == 'sat' for v in sec.values()):
+            res['disagreement'] = True
+        if res['result'] == 'sat' and any(v[0] == 'unsat' for v in sec.values()):
+            res['disagreement'] = True
+    res['seconds'] = time.time() - t0
     return res
+
+
+def quick_unsat(assertions, timeout_s=1):
+    """True iff z3 4.8.12 refutes the conjunction quickly (used for path pruning when the in-process solver gives up)"""
+    try:
+        text = to_smt2(assertions)
+    except Exception:
+        return False
+    rr, _ = run_cli([Z3_OLD, '-t:500', f'-T:{timeout_s}'], text, timeout_s)
+    return rr == 'unsat'
